@@ -96,7 +96,7 @@ func (pat pat) NumPrograms() int {
 func (pat pat) ProgramMap() map[int]int {
 	m := make(map[int]int)
 
-	counter := 8 // skip table id et al
+	counter := 8 + int(PointerField(pat)) // skip pointer field, its filler bytes, table id et al
 
 	for i := 0; i < pat.NumPrograms(); i++ {
 		if counter+4 >= len(pat) {
